@@ -32,15 +32,34 @@ type secNode struct {
 	local   stack.Addr
 }
 
-type secWorld struct {
-	kind   string // p2pke | quic
-	nodes  []*secNode
-	mkAddr func(id p2p.PeerID, inner stack.Addr) stack.Addr
-	idOf   func(a stack.Addr) p2p.PeerID
+// liveRejects is the whitelist predicate's view of one node's reject set.
+type liveRejects struct {
+	w       *secWorld
+	node    int
+	idIndex map[p2p.PeerID]int
 }
 
-func buildSecure(kind, base string, n int, rejects []map[int]bool, wrap bool) (*secWorld, error) {
-	w := &secWorld{kind: kind}
+func (l liveRejects) has(id p2p.PeerID) bool {
+	j, known := l.idIndex[id]
+	if !known {
+		return false
+	}
+	l.w.mu.RLock()
+	defer l.w.mu.RUnlock()
+	return l.w.rejects[l.node][j]
+}
+
+type secWorld struct {
+	mu      sync.RWMutex
+	rejects []map[int]bool
+	kind    string // p2pke | quic
+	nodes   []*secNode
+	mkAddr  func(id p2p.PeerID, inner stack.Addr) stack.Addr
+	idOf    func(a stack.Addr) p2p.PeerID
+}
+
+func buildSecure(kind, base string, n int, rejects []map[int]bool, wrap bool, dynamic bool) (*secWorld, error) {
+	w := &secWorld{kind: kind, rejects: rejects}
 	var realm *memswarm.Realm
 	if base == "mem" {
 		realm = memswarm.NewRealm(memswarm.WithQueueLen(1024), memswarm.WithMTU(1<<16))
@@ -67,26 +86,29 @@ func buildSecure(kind, base string, n int, rejects []map[int]bool, wrap bool) (*
 			inner = stack.Erase[udpswarm.Addr](u)
 		}
 		nd.inner = inner.LocalAddrs()[0]
-		rejectIDs := map[p2p.PeerID]bool{}
-		for j := range nd.rejects {
-			rejectIDs[ids[j]] = true
+		// the predicate consults the live reject set of this node, so that a later revocation takes effect
+		idIndex := map[p2p.PeerID]int{}
+		for j, id := range ids {
+			idIndex[id] = j
 		}
+		rejectIDs := liveRejects{w: w, node: i, idIndex: idIndex}
+		hasRejects := len(nd.rejects) > 0 || dynamic
 		if kind == "p2pke" {
 			var opts []p2pkeswarm.Option[stack.Addr]
-			if len(rejectIDs) > 0 && !wrap {
-				opts = append(opts, p2pkeswarm.WithWhitelist[stack.Addr](func(a p2pkeswarm.Addr[stack.Addr]) bool { return !rejectIDs[a.ID] }))
+			if hasRejects && !wrap {
+				opts = append(opts, p2pkeswarm.WithWhitelist[stack.Addr](func(a p2pkeswarm.Addr[stack.Addr]) bool { return !rejectIDs.has(a.ID) }))
 			}
 			sw := p2pkeswarm.New[stack.Addr](inner, stack.PrivKey(i), opts...)
 			var sec p2p.SecureSwarm[p2pkeswarm.Addr[stack.Addr], x509.PublicKey] = sw
-			if len(rejectIDs) > 0 && wrap {
-				sec = wlswarm.WrapSecure[p2pkeswarm.Addr[stack.Addr], x509.PublicKey](sw, func(a p2pkeswarm.Addr[stack.Addr]) bool { return !rejectIDs[a.ID] })
+			if hasRejects && wrap {
+				sec = wlswarm.WrapSecure[p2pkeswarm.Addr[stack.Addr], x509.PublicKey](sw, func(a p2pkeswarm.Addr[stack.Addr]) bool { return !rejectIDs.has(a.ID) })
 			}
 			nd.s, nd.sec = stack.Erase[p2pkeswarm.Addr[stack.Addr]](sec), stack.EraseSec[p2pkeswarm.Addr[stack.Addr]](sec)
 		} else {
 			var opts []quicswarm.Option[stack.Addr]
-			if len(rejectIDs) > 0 && !wrap {
+			if hasRejects && !wrap {
 				opts = append(opts, quicswarm.WithWhilelist[stack.Addr](func(a p2p.Addr) bool {
-					return !rejectIDs[a.(quicswarm.Addr[stack.Addr]).ID]
+					return !rejectIDs.has(a.(quicswarm.Addr[stack.Addr]).ID)
 				}))
 			}
 			sw, err := quicswarm.New[stack.Addr](inner, stack.PrivKey(i), opts...)
@@ -94,8 +116,8 @@ func buildSecure(kind, base string, n int, rejects []map[int]bool, wrap bool) (*
 				return nil, err
 			}
 			var sec p2p.SecureAskSwarm[quicswarm.Addr[stack.Addr], x509.PublicKey] = sw
-			if len(rejectIDs) > 0 && wrap {
-				sec = wlswarm.WrapSecureAsk[quicswarm.Addr[stack.Addr], x509.PublicKey](sw, func(a quicswarm.Addr[stack.Addr]) bool { return !rejectIDs[a.ID] })
+			if hasRejects && wrap {
+				sec = wlswarm.WrapSecureAsk[quicswarm.Addr[stack.Addr], x509.PublicKey](sw, func(a quicswarm.Addr[stack.Addr]) bool { return !rejectIDs.has(a.ID) })
 			}
 			nd.s, nd.a, nd.sec = stack.Erase[quicswarm.Addr[stack.Addr]](sec), stack.EraseAsk[quicswarm.Addr[stack.Addr]](sec), stack.EraseSec[quicswarm.Addr[stack.Addr]](sec)
 		}
@@ -130,10 +152,37 @@ type secOp struct {
 	claim    string // correct | other | random
 	ask      bool
 	tag      string
+	revoke   bool // not a message: node dst starts rejecting node src
 }
 
-func TestC04Attribution(t *testing.T) {
-	const sub = "C04.p2pke_quic_attribution"
+// sentAfterRevocation: the operation numbered opn (a message from src to dst) comes after the point from which dst
+// rejects src - the start for a static whitelist, the revoke operation for a dynamic one.
+func sentAfterRevocation(ops []secOp, opn, src, dst int) bool {
+	revokedAt := -1
+	static := true
+	for _, o := range ops {
+		if o.revoke && o.src == src && o.dst == dst {
+			static = false
+			var k int
+			fmt.Sscanf(o.tag, "op%d:", &k)
+			if revokedAt < 0 || k < revokedAt {
+				revokedAt = k
+			}
+		}
+	}
+	if static {
+		return true
+	}
+	return opn >= revokedAt
+}
+
+func TestC04Attribution(t *testing.T) { attribution(t, "C04.p2pke_quic_attribution") }
+
+// The same histories decide C05 at the level of the P2PKE swarm: its channels are created with the
+// predicate "the key's fingerprint is the identity the address names" and must never talk to another key.
+func TestC05SwarmIdentity(t *testing.T) { attribution(t, "C05.swarm_wrong_identity") }
+
+func attribution(t *testing.T, sub string) {
 	ev.Rule(sub, "rapid: three nodes with known key pairs on P2PKE-over-{memory,UDP} or QUIC-over-{memory,UDP}; per-node whitelists drawn over the node set, configured through the swarm's own option or through the whitelist wrapper; 1-12 operations: tell/ask from any node to any other with the destination's identity part correct, replaced by another node's, or random (the transport part always names a real listener), so that both orders of first contact with a rejected peer occur. Oracle, evaluated inside every callback: Src's identity is the fingerprint of the key of the node that really sent the payload; LookupPublicKeyInHandler(Src) returns that key; a payload addressed to identity X is never seen by a node whose key is not X; no callback fires for a source the whitelist rejects. non-trivial = a wrong-identity destination or a rejecting whitelist involved; distinct by (stack, whitelists, operation list)")
 	rapid.Check(t, func(t *rapid.T) {
 		kind := rapid.SampledFrom([]string{"p2pke", "p2pke", "quic"}).Draw(t, "kind")
@@ -161,7 +210,8 @@ func TestC04Attribution(t *testing.T) {
 			}
 		}
 		wrap := rapid.Bool().Draw(t, "viaWrapper")
-		w, err := buildSecure(kind, base, n, rejects, wrap)
+		dynamic := rapid.IntRange(0, 2).Draw(t, "revocations") == 0
+		w, err := buildSecure(kind, base, n, rejects, wrap, dynamic)
 		if err != nil {
 			t.Fatalf("%s", ev.Tag(fmt.Sprintf("harness: %v", err)))
 		}
@@ -170,6 +220,19 @@ func TestC04Attribution(t *testing.T) {
 		var ops []secOp
 		wrongID := false
 		for i := 0; i < nOps; i++ {
+			if dynamic && len(ops) > 0 && !ops[len(ops)-1].revoke && rapid.Bool().Draw(t, "revokeNow") {
+				// the receiver of the previous message stops accepting its sender from here on (the predicate is
+				// consulted live); the same sender then tries again
+				prev := ops[len(ops)-1]
+				r := secOp{src: prev.src, dst: prev.dst, revoke: true}
+				r.tag = fmt.Sprintf("op%d:revoke:%d-rejects-%d", i, r.dst, r.src)
+				again := prev
+				again.claim = "correct"
+				again.tag = fmt.Sprintf("op%d:%d->%d:%s", i, again.src, again.dst, again.claim)
+				ops = append(ops, r, again)
+				anyReject = true
+				continue
+			}
 			op := secOp{src: rapid.IntRange(0, n-1).Draw(t, "src")}
 			op.dst = (op.src + 1 + rapid.IntRange(0, n-2).Draw(t, "dstOff")) % n
 			op.claim = rapid.SampledFrom([]string{"correct", "correct", "correct", "other", "random"}).Draw(t, "claim")
@@ -238,7 +301,10 @@ func TestC04Attribution(t *testing.T) {
 			if claim != "correct" {
 				problem("node %d received %q although it was addressed to an identity that is not this node's", r.idx, tag)
 			}
-			if r.rejects[srcIdx] {
+			w.mu.RLock()
+			rejected := w.rejects[r.idx][srcIdx]
+			w.mu.RUnlock()
+			if rejected && sentAfterRevocation(ops, opn, srcIdx, r.idx) {
 				problem("node %d delivered %q from node %d which its whitelist rejects", r.idx, tag, srcIdx)
 			}
 		}
@@ -263,6 +329,13 @@ func TestC04Attribution(t *testing.T) {
 			randID[i] = byte(0x30 + i)
 		}
 		for _, op := range ops {
+			if op.revoke {
+				time.Sleep(30 * time.Millisecond) // what was sent before the revocation has arrived by now
+				w.mu.Lock()
+				w.rejects[op.dst][op.src] = true
+				w.mu.Unlock()
+				continue
+			}
 			dst := w.nodes[op.dst]
 			id := dst.id
 			switch op.claim {
@@ -276,7 +349,10 @@ func TestC04Attribution(t *testing.T) {
 			}
 			addr := w.mkAddr(id, dst.inner)
 			timeout := 2 * time.Second
-			if op.claim != "correct" || dst.rejects[op.src] || w.nodes[op.src].rejects[op.dst] {
+			w.mu.RLock()
+			blocked := dst.rejects[op.src] || w.nodes[op.src].rejects[op.dst]
+			w.mu.RUnlock()
+			if op.claim != "correct" || blocked {
 				timeout = 150 * time.Millisecond
 			}
 			octx, cf := context.WithTimeout(ctx, timeout)
